@@ -18,6 +18,8 @@
 //@@ include cleanup.rs
 //@@ include compact.rs
 //@@ include common.rs
+//@@ include diffablestr.rs
+//@@ include textdiff_spec.rs
 //@@ include textdiff.rs
 //@@ props ^TextDiffConfig::|^IdentifyDistinct::|^Index for OffsetLookup|^Deadline::|^duration_to_deadline$ : C02
 fn main() {}
